@@ -11,8 +11,124 @@ from .intrinsics import IterBase, intrinsic, some, NONE, Enumerate
 from . import strings
 
 
+_SPLIT_CACHE = {}
+
+
+def split_cond(c):
+    """cond -> (dict var_id -> (var, value) for top-level conjuncts `var == numeral`, has_residual)"""
+    if isinstance(c, bool):
+        return {}, False
+    k = c.get_id()
+    hit = _SPLIT_CACHE.get(k)
+    if hit is not None and hit[0] is c:
+        return hit[1], hit[2]
+    keys = {}
+    residual = False
+    stack = [c]
+    while stack:
+        e = stack.pop()
+        if z3.is_and(e):
+            stack.extend(e.children())
+            continue
+        if z3.is_const(e) and z3.is_bool(e) and e.decl().kind() == z3.Z3_OP_UNINTERPRETED:
+            keys[e.get_id()] = (e, 1)
+            continue
+        if z3.is_not(e):
+            a = e.arg(0)
+            if z3.is_const(a) and a.decl().kind() == z3.Z3_OP_UNINTERPRETED:
+                keys[a.get_id()] = (a, 0)
+                continue
+        if z3.is_eq(e):
+            a, b = e.arg(0), e.arg(1)
+            if z3.is_bv_value(b) and z3.is_const(a) and a.decl().kind() == z3.Z3_OP_UNINTERPRETED:
+                keys[a.get_id()] = (a, b.as_long())
+                continue
+            if z3.is_bv_value(a) and z3.is_const(b) and b.decl().kind() == z3.Z3_OP_UNINTERPRETED:
+                keys[b.get_id()] = (b, a.as_long())
+                continue
+        residual = True
+    _SPLIT_CACHE[k] = (c, keys, residual)
+    return keys, residual
+
+
+_TREE_CACHE = {}
+
+
+def _build_tree(alts, idx, fixed, info):
+    if len(idx) <= 3:
+        return ('leaf', idx)
+    count = {}
+    for i in idx:
+        for vid, (var, val) in info[i].items():
+            if vid not in fixed:
+                count.setdefault(vid, [var, 0])[1] += 1
+    if not count:
+        return ('leaf', idx)
+    vid = max(count, key=lambda k: (count[k][1], -k))
+    var = count[vid][0]
+    by_val = {}
+    free = []
+    for i in idx:
+        kv = info[i].get(vid)
+        if kv is None:
+            free.append(i)
+        else:
+            by_val.setdefault(kv[1], []).append(i)
+    vals = sorted(by_val)
+    if z3.is_bool(var):
+        eqv = lambda v: var if v == 1 else z3.Not(var)
+        nev = lambda v: z3.Not(var) if v == 1 else var
+    else:
+        eqv = lambda v: var == v
+        nev = lambda v: var != v
+    conds = [eqv(v) for v in vals]
+    subs = [_build_tree(alts, sorted(by_val[v] + free), fixed | {vid}, info) for v in vals]
+    if free:
+        conds.append(z3.And(*[nev(v) for v in vals]) if len(vals) > 1 else nev(vals[0]))
+        subs.append(_build_tree(alts, free, fixed | {vid}, info))
+    return ('split', conds, subs, var, vals)
+
+
+def tree_choose(ex, alts):
+    """choose one alternative of a slot through a decision tree over the digit variables that the alternatives'
+    conditions fix (so that every solver question is a small one); returns the index of the chosen alternative.
+    The tree is built once per slot."""
+    k = id(alts)
+    hit = _TREE_CACHE.get(k)
+    if hit is None or hit[0] is not alts:
+        info = [split_cond(c)[0] for c, _ in alts]
+        hit = (alts, _build_tree(alts, list(range(len(alts))), frozenset(), info))
+        _TREE_CACHE[k] = hit
+    node = hit[1]
+    subs = []
+    while node[0] == 'split':
+        j = ex.choose_by_domain(node[3], node[4], node[1])
+        if j < len(node[4]):
+            var, val = node[3], node[4][j]
+            subs.append((var, z3.BoolVal(bool(val)) if z3.is_bool(var) else z3.BitVecVal(val, var.size())))
+        node = node[2][j]
+    idx = node[1]
+    # specialise the leaf's conditions to the decisions taken (equivalent on this path, but small)
+    ck = (k, id(node))
+    spec = _LEAF_CACHE.get(ck)
+    if spec is None:
+        spec = []
+        for i in idx:
+            c = alts[i][0]
+            if subs and not isinstance(c, bool):
+                c = z3.simplify(z3.substitute(c, *subs))
+            spec.append(c)
+        _LEAF_CACHE[ck] = spec
+    j = ex.choose(spec)
+    return idx[j]
+
+
+_LEAF_CACHE = {}
+
+
 @dataclass(frozen=True, eq=False)
 class SlotIter(IterBase):
+    symbolic_input = True
     slots: tuple          # tuple of tuples of (cond, word|None)
     pos: int = 0
     lower: bool = False
@@ -21,7 +137,7 @@ class SlotIter(IterBase):
         pos = self.pos
         while pos < len(self.slots):
             alts = self.slots[pos]
-            i = ex.choose([c for c, _ in alts])
+            i = tree_choose(ex, alts)
             w = alts[i][1]
             pos += 1
             if w is None:
@@ -31,6 +147,9 @@ class SlotIter(IterBase):
 
     def merge_key(self):
         return ('slot', self.pos)
+
+    def shape(self, ex):
+        return ('SlotIter', self.pos, self.lower)
 
     def merge_with(self, c, other):
         if isinstance(other, SlotIter) and other.pos == self.pos and other.slots is self.slots:
@@ -47,6 +166,10 @@ class SlotPhrase:
     slots: tuple
     lower: bool = False
     type_name = 'str'
+    symbolic_input = True
+
+    def shape(self, ex):
+        return ('SlotPhrase', self.lower)
 
     def to_lowercase(self, ex):
         return SlotPhrase(self.slots, True)
@@ -65,6 +188,9 @@ class VTok:
     ident: Any = None
     type_name = 'VTok'
 
+    def shape(self, ex):
+        return ('VTok', ex.shape_of(self.sep), ex.shape_of(self.nan))
+
     def same_as(self, o):
         return isinstance(o, VTok) and self.text == o.text and self.lower == o.lower and same(self.sep, o.sep) and \
             same(self.nan, o.nan) and self.ident == o.ident
@@ -77,6 +203,7 @@ class VTok:
 
 @dataclass(frozen=True, eq=False)
 class TokIter(IterBase):
+    symbolic_input = True
     slots: tuple          # tuple of tuples of (cond, VTok|None)
     pos: int = 0
     taken: int = 0        # how many slots have been consumed (for the laziness obligations)
@@ -85,7 +212,7 @@ class TokIter(IterBase):
         pos = self.pos
         while pos < len(self.slots):
             alts = self.slots[pos]
-            i = ex.choose([c for c, _ in alts])
+            i = tree_choose(ex, alts)
             t = alts[i][1]
             pos += 1
             if t is None:
@@ -95,6 +222,9 @@ class TokIter(IterBase):
 
     def merge_key(self):
         return ('tok', self.pos)
+
+    def shape(self, ex):
+        return ('TokIter', self.pos)
 
     def merge_with(self, c, other):
         if isinstance(other, TokIter) and other.pos == self.pos and other.slots is self.slots:
